@@ -8,3 +8,4 @@ pub mod lua_ast;
 pub mod configs;
 pub mod markup;
 pub mod schemas;
+pub mod scope_frag;
